@@ -136,6 +136,13 @@ class Obs:
 class StubConfig:
     autosave_dt = 1000.0
     initial_state = None
+    # nominal solver step of the config; the target-time grid of the harness is symbolic and
+    # deliberately unrelated to it (evaluation times make real grids non-uniform)
+    dt = 10.0
+    precision = 1e-5
+    max_bond_dim = 1024
+    extra_krylov_tolerance = 1e-3
+    max_krylov_dim = 100
 
     def __init__(self, world):
         self.w = world
